@@ -428,7 +428,14 @@ def canon_value(v):
         j = v.to_json()
         if j == '':
             return None     # the library's own convention: an object without values is written as '' = absent
-        return {'cls': type(v).__name__, 'json': json.loads(j)}
+        d = json.loads(j)
+        # list-valued fields are taken from the object itself, not from its own encoding (positions in a list carry meaning:
+        # the i-th bdf, mac and vlan belong together - an encoder that reorders them must not hide behind its own output)
+        for k in list(d):
+            raw = v.__dict__.get(k)
+            if isinstance(raw, (list, tuple)):
+                d[k] = [canon_value(x) for x in raw]
+        return {'cls': type(v).__name__, 'json': d}
     if isinstance(v, JSONData):
         return {'cls': type(v).__name__, 'data': json.loads(v.json)}
     if isinstance(v, Delegations):
